@@ -297,7 +297,7 @@ Theorem tstep_refines : forall (w : wN) s op, ainvN w s -> top_ok op ->
 Proof.
   intros w s op Hinv Hok.
   pose proof (ainv_hwf _ _ Hinv) as Hwf.
-  destruct op as [i n|i j|i j|i j|i j|i l|i l|i c|i j|i l|i l|i j|i l|i l|i|i|i|i n|i idx|i c idx|i n c|i l|i n|i n|i|i|i];
+  destruct op as [i n|i j|i j|i j|i j|i l|i l|i c|i j|i l|i l|i j|i l|i l|i|i|i|i n|i idx|i c idx|i n c|i l|i n|i n|i|i|i|i|i];
     cbn [tstep tspec fst snd top_ok] in *.
   - (* TNew *)
     destruct (owns_free _ _ _ Hwf (ainv_obj _ _ i Hinv)) as (h1 & Hf & Hwf1 & Hn1 & Hfr1).
@@ -545,6 +545,10 @@ Proof.
   - (* TInsertNull *)
     destruct (t_insert_null_ok w s i Hinv) as (w1 & Hr & Hinv1 & Ht).
     rewrite Hr. cbn [bind]. eauto.
+  - (* TIter *)
+    rewrite (owns_read_all _ _ _ (ainv_obj _ _ i Hinv)). cbn [bind]. eauto.
+  - (* TStreamOut *)
+    rewrite (owns_read_all _ _ _ (ainv_obj _ _ i Hinv)). cbn [bind]. eauto.
 Qed.
 
 Theorem trun_refines : forall ops (w : wN) s, ainvN w s -> Forall top_ok ops ->
